@@ -3,6 +3,7 @@
 import collections
 import contextlib
 import ctypes
+import functools
 import os
 import signal
 import subprocess
@@ -37,6 +38,25 @@ _jobs_thread_local = threading.local()
 # The use_main_jobs context manager uses this variable to access the tasks on
 # the main thread.
 _tasks_main: collections.deque[int] = collections.deque()
+
+# The main thread's job table (the dict and the task queue) is also used by
+# the threads of the ``jobs``, ``bg`` and ``disown`` aliases (use_main_jobs)
+# while the main thread itself keeps polling it in the foreground wait loop
+# (get_next_task) and registers new jobs.  Every read-modify-write of the
+# table happens under this lock; it is re-entrant because the functions below
+# call each other (and the SIGHUP handler may run on top of them).
+_jobs_lock = threading.RLock()
+
+
+def _locked(func):
+    """Run ``func`` with the job table lock held."""
+
+    @functools.wraps(func)
+    def wrapper(*args, **kwargs):
+        with _jobs_lock:
+            return func(*args, **kwargs)
+
+    return wrapper
 
 
 def proc_untraced_waitpid(proc, hang, task=None, raise_child_process_error=False):
@@ -396,6 +416,7 @@ def _safe_wait_for_active_job(last_task=None, backgrounded=False):
     return rtn
 
 
+@_locked
 def get_next_task():
     """Get the next active task and put it on top of the queue"""
     tasks = get_tasks()
@@ -417,6 +438,7 @@ def get_task(tid):
     return get_jobs()[tid]
 
 
+@_locked
 def _clear_dead_jobs():
     to_remove = set()
     tasks = get_tasks()
@@ -444,6 +466,7 @@ def _clear_dead_jobs():
             jobs.pop(job, None)
 
 
+@_locked
 def format_job_string(num: int, format="dict") -> str:
     try:
         job = get_jobs()[num]
@@ -481,6 +504,7 @@ def print_one_job(num, outfile=sys.stdout, format="dict"):
         print(info, file=outfile)
 
 
+@_locked
 def get_next_job_number():
     """Get the lowest available unique job number (for the next job created)."""
     _clear_dead_jobs()
@@ -490,6 +514,7 @@ def get_next_job_number():
     return i
 
 
+@_locked
 def add_job(info):
     """Add a new job to the jobs dictionary."""
     num = get_next_job_number()
@@ -505,6 +530,7 @@ def add_job(info):
         print_one_job(num)
 
 
+@_locked
 def update_job_attr(pid, name, value):
     """Update job attribute."""
     jobs = get_jobs()
@@ -586,10 +612,14 @@ def jobs(args, stdin=None, stdout=sys.stdout, stderr=None):
 
     Display a list of all current jobs.
     """
-    _clear_dead_jobs()
     format = "posix" if "--posix" in args else "dict"
-    for j in get_tasks():
-        print_one_job(j, outfile=stdout, format=format)
+    with _jobs_lock:
+        _clear_dead_jobs()
+        lines = [format_job_string(j, format) for j in get_tasks()]
+    # (printing may block on a full pipe: not under the lock)
+    for info in lines:
+        if info:
+            print(info, file=stdout)
     return None, None
 
 
@@ -597,38 +627,39 @@ def resume_job(args, wording: tp.Literal["fg", "bg"]):
     """
     used by fg and bg to resume a job either in the foreground or in the background.
     """
-    _clear_dead_jobs()
-    tasks = get_tasks()
-    if len(tasks) == 0:
-        return "", "There are currently no suspended jobs"
+    with _jobs_lock:
+        _clear_dead_jobs()
+        tasks = get_tasks()
+        if len(tasks) == 0:
+            return "", "There are currently no suspended jobs"
 
-    if len(args) == 0:
-        tid = tasks[0]  # take the last manipulated task by default
-    elif len(args) == 1:
-        try:
-            if args[0] == "+":  # take the last manipulated task
-                tid = tasks[0]
-            elif args[0] == "-":  # take the second to last manipulated task
-                tid = tasks[1]
-            else:
-                tid = int(args[0])
-        except (ValueError, IndexError):
-            return "", f"Invalid job: {args[0]}\n"
+        if len(args) == 0:
+            tid = tasks[0]  # take the last manipulated task by default
+        elif len(args) == 1:
+            try:
+                if args[0] == "+":  # take the last manipulated task
+                    tid = tasks[0]
+                elif args[0] == "-":  # take the second to last manipulated task
+                    tid = tasks[1]
+                else:
+                    tid = int(args[0])
+            except (ValueError, IndexError):
+                return "", f"Invalid job: {args[0]}\n"
 
-        if tid not in get_jobs():
-            return "", f"Invalid job: {args[0]}\n"
-    else:
-        return "", f"{wording} expects 0 or 1 arguments, not {len(args)}\n"
+            if tid not in get_jobs():
+                return "", f"Invalid job: {args[0]}\n"
+        else:
+            return "", f"{wording} expects 0 or 1 arguments, not {len(args)}\n"
 
-    # Put this one on top of the queue
-    tasks.remove(tid)
-    tasks.appendleft(tid)
+        # Put this one on top of the queue
+        tasks.remove(tid)
+        tasks.appendleft(tid)
 
-    job = get_task(tid)
-    job["bg"] = False
-    job["status"] = "running"
-    if XSH.env.get("XONSH_INTERACTIVE"):
-        print_one_job(tid)
+        job = get_task(tid)
+        job["bg"] = False
+        job["status"] = "running"
+        if XSH.env.get("XONSH_INTERACTIVE"):
+            print_one_job(tid)
     pipeline = job["pipeline"]
     pipeline.resume(
         job, tee_output=(wording == "fg")
@@ -656,9 +687,13 @@ def bg(args, stdin=None):
     """
     res = resume_job(args, wording="bg")
     if res is None:
-        curtask = get_task(get_tasks()[0])
-        curtask["bg"] = True
-        _continue(curtask)
+        with _jobs_lock:
+            # (the job may have finished and been purged in the meantime)
+            tasks = get_tasks()
+            curtask = get_jobs().get(tasks[0]) if tasks else None
+            if curtask is not None:
+                curtask["bg"] = True
+                _continue(curtask)
     else:
         return res
 
@@ -670,6 +705,7 @@ def job_id_completer(xsh, **_):
 
 
 @use_main_jobs()
+@_locked
 def disown_fn(
     job_ids: Annotated[
         tp.Sequence[int], Arg(type=int, nargs="*", completer=job_id_completer)
